@@ -976,6 +976,8 @@ CHECKS = {
     "C06": dict(corpus=corpus_schedule, e1=[e1_tempering]),
     "C07": dict(corpus=corpus_schedule, e1=[e1_tempering]),
     "C08": dict(corpus=lambda t, s, r: corpus_general(t, s, r, 200 if t == "quick" else 3000) + [dict(x, id="v" + x["id"]) for x in corpus_variants(t, s, r)], e1=[e1_smcrun]),
+    "C09": dict(corpus=lambda t, s, r: corpus_general(t, s, r, 150 if t == "quick" else 3000), e1=[],
+                extra=lambda v, t, s: __import__("e3_resample").replay(v, t, s)),
     "C10": dict(corpus=lambda t, s, r: corpus_general(t, s, r) + corpus_calls(t, s, r), e1=[e1_smcrun]),
     "C11": dict(corpus=corpus_resume, e1=[e1_smcrun]),
     "C12": dict(corpus=corpus_file, e1=[e1_smcrun], extra=e3_blob),
